@@ -71,6 +71,15 @@ func ruleOU13(c *Ctx) {
 								for _, ld := range cellLoads(cell) {
 									add(ld)
 								}
+							} else if g, isG := x.Addr.(*ssa.Global); isG {
+								// kept in a package-level variable (measured once by the CLI layer): judged where it is read
+								for _, f2 := range c.Fns {
+									eachInstr(f2, func(r2 instrRef) {
+										if ld, ok := r2.In.(*ssa.UnOp); ok && ld.Op == token.MUL && ld.X == ssa.Value(g) {
+											add(ld)
+										}
+									})
+								}
 							} else {
 								problems = append(problems, "stored at "+c.Pos(x.Pos()))
 							}
@@ -143,6 +152,25 @@ func ruleOU13(c *Ctx) {
 			c.check(len(problems) == 0, c.Name(fn), site+"|width-unaltered", c.Pos(call.Pos()),
 				fmt.Sprintf("the reported width is copied, returned and compared only with 0 (%d comparison(s))", nCmp),
 				"the width reported by the terminal is "+why)
+			// the stream measured is the one the rows are written to
+			stream := ""
+			if len(cv.Call.Args) > 0 {
+				fd := strip(cv.Call.Args[0])
+				for i := 0; i < 4; i++ {
+					if cvt, ok := fd.(*ssa.Convert); ok {
+						fd = strip(cvt.X)
+					}
+				}
+				if fc, _ := callOf(fd); fc != nil && calleeFullName(&fc.Call) == "(*os.File).Fd" && len(fc.Call.Args) > 0 {
+					for _, nme := range []string{"Stdout", "Stderr", "Stdin"} {
+						if isGlobalLoad(fc.Call.Args[0], nme) {
+							stream = nme
+						}
+					}
+				}
+			}
+			c.check(stream == "Stdout", c.Name(fn), site+"|measures-stdout", c.Pos(call.Pos()), "the width measured is that of os.Stdout, where the rows go",
+				"the terminal is measured on "+map[string]string{"": "a descriptor that is not os.Stdout.Fd()", "Stderr": "os.Stderr", "Stdin": "os.Stdin"}[stream]+", not on os.Stdout: when that stream is redirected (or is the only one on a terminal) the rows are laid out for a width that is not the width of the terminal they appear on")
 			c.check(nCmp > 0, c.Name(fn), site+"|nonpositive-rejected", c.Pos(call.Pos()), "a non-positive width is tested for", "the reported width is never tested for being positive before it is used")
 		}
 	}
